@@ -495,10 +495,6 @@ def check_page(spec, app, path, width, ansi):
 
 
 # ---------------------------------------------------------------------------------------------- help routes
-class _Budget(BaseException):
-    pass
-
-
 def run_line(app, tokens, ansi):
     from clikit.args import ArgvArgs
     from clikit.io.input_stream import StringInputStream
@@ -623,6 +619,48 @@ def small_trees(gen):
     return out
 
 
+def _cmd(name, **kw):
+    c = {"name": name, "aliases": [], "desc": SHORT_DESC, "help": None, "hidden": False, "disabled": False, "default": False,
+         "anonymous": False, "opts": [], "args": [], "subs": []}
+    c.update(kw)
+    return c
+
+
+def _arg(name, flags=0, desc=SHORT_DESC, default=None):
+    return {"name": name, "flags": flags, "desc": desc, "default": default}
+
+
+def _opt(long_name, short=None, flags=0, desc=SHORT_DESC, default=None):
+    return {"long": long_name, "short": short, "flags": flags, "desc": desc, "default": default, "value_name": "..."}
+
+
+def corner_trees():
+    """a fixed panel of small hand-written trees (every element described unless the tree is about that), so
+    that each clause is exercised on minimal inputs whatever the seeded generator deals"""
+    def app(cmds, default_config=True, opts=(), args=()):
+        return {"default_config": default_config, "name": "app", "version": "1.0", "help": None, "opts": list(opts), "args": list(args), "cmds": cmds}
+
+    return [
+        # hidden / disabled / anonymous / default sub-commands next to a visible one
+        app([_cmd("grp", subs=[_cmd("shown", args=[_arg("item")]), _cmd("hid1h", hidden=True), _cmd("hid2h", hidden=True, default=True),
+                               _cmd("dis1d", disabled=True), _cmd("dis2d", disabled=True, default=True), _cmd("anon", anonymous=True, default=True)])]),
+        # a hidden default sub-command only
+        app([_cmd("solo", subs=[_cmd("secreth", hidden=True, default=True, opts=[_opt("sopt", "s")])])]),
+        # required argument + default sub-command (help must resolve leniently)
+        app([_cmd("need", args=[_arg("must", A_REQUIRED)], subs=[_cmd("dflt", default=True), _cmd("other", args=[_arg("more", A_REQUIRED)])])]),
+        # top-level hidden / disabled / aliases; bare config with global options and arguments
+        app([_cmd("vis", aliases=["v1", "v2"]), _cmd("tophidh", hidden=True, aliases=["thal"]), _cmd("topdisd", disabled=True), _cmd("topdef", default=True)],
+            default_config=False, opts=[_opt("gopt", "g", O_REQ, default="x"), _opt("only-long")], args=[_arg("garg")]),
+        # every label form, three levels of inheritance
+        app([_cmd("l1", opts=[_opt("aa", "a"), _opt("bb", "b", PREFER_LONG), _opt("cc", "c", PREFER_SHORT | O_OPT, default=2.5), _opt("dd")],
+                  args=[_arg("first", A_REQUIRED)],
+                  subs=[_cmd("l2", opts=[_opt("ee", "e", O_MULTI, default=["x", "y"])], args=[_arg("second")],
+                             subs=[_cmd("l3", opts=[_opt("ff", "f", O_REQ | 512, default=3)], args=[_arg("rest", A_MULTI, default=["r"])])])])]),
+        # elements without description (and nothing else special)
+        app([_cmd("plain", opts=[_opt("nodesc", "x", desc=None)], args=[_arg("noarg", desc=None)])]),
+    ]
+
+
 def bounded(ctx):
     rng = random.Random(ctx.seed * 7919 + 13)
     gen = Gen(rng)
@@ -630,9 +668,11 @@ def bounded(ctx):
     trees = [gen.tree(i) for i in range(n_trees)]
     if not ctx.quick:
         trees = small_trees(gen) + trees
+    n_corner = len(corner_trees())
+    trees = corner_trees() + trees
 
     # ---------------------------------------------------------------- pages
-    ctx.check("pages", ("%d seeded trees (depth<=3, fan-out<=3)%s x every page (application + each enabled command) x "
+    ctx.check("pages", ("6 hand-written corner trees + %d seeded trees (depth<=3, fan-out<=3)%s x every page (application + each enabled command) x "
                          "%s x ANSI/plain: render succeeds, page complete, hidden/disabled absent, no line wider than the terminal") % (
         n_trees, "" if ctx.quick else " + all 24 shapes of depth<=2/fan-out<=2 on both configs",
         "8 widths " + str(QUICK_WIDTHS) if ctx.quick else "every width 40..200 for the first 40 trees, 8 rotating widths covering 40..200 for the rest"))
@@ -649,7 +689,7 @@ def bounded(ctx):
         app = build_app(spec)
         if ctx.quick:
             widths = QUICK_WIDTHS
-        elif ti < 40:
+        elif ti < 40 + n_corner:
             widths = ALL_WIDTHS
         else:
             widths = [40 + (ti * 8 + k * 20 + (ti // 20)) % 161 for k in range(8)]
@@ -667,7 +707,7 @@ def bounded(ctx):
 
     # ---------------------------------------------------------------- the two help routes
     n_route_trees = 30 if ctx.quick else 600
-    ctx.check("routes", ("first %d default-config trees x every enabled named command path (canonical names and one alias spelling) and "
+    ctx.check("routes", ("the corner trees and the first %d seeded default-config trees x every enabled named command path (canonical names and one alias spelling) and "
                           "the empty path x %s x ANSI/plain through ConsoleApplication.run (COLUMNS): `help <path>` == `<path> --help` == "
                           "`<path> -h`, status 0, and equal to the page CommandHelp renders for that command") % (
         n_route_trees, "2 widths per path out of " + str(QUICK_WIDTHS) if ctx.quick else "3 rotating widths out of 40..200"))
